@@ -21,6 +21,11 @@ from .decoders import (
 )
 from .pyast import call_name, names_loaded, unparse, walk_no_nested
 
+def _closure_key(fn: ast.FunctionDef, c: ast.FunctionDef) -> str:
+    cl = sorted([n for n in ast.walk(fn) if isinstance(n, ast.FunctionDef) and n is not fn], key=lambda n: n.lineno)
+    return f"closure{cl.index(c) + 1}"
+
+
 REF_RGB = ["(getbit(c, 5) * 2 + getbit(c, 2)) * 85", "(getbit(c, 4) * 2 + getbit(c, 1)) * 85", "(getbit(c, 3) * 2 + getbit(c, 0)) * 85"]
 
 
@@ -34,11 +39,48 @@ def _ref_rgb(i: int) -> Tuple[int, int, int]:
     return ((b(5) * 2 + b(2)) * 85, (b(4) * 2 + b(1)) * 85, (b(3) * 2 + b(0)) * 85)
 
 
+def _aliases(fn: ast.FunctionDef, base: Set[str]) -> Set[str]:
+    """Names that are plain aliases (`x = y`) of the given names inside fn."""
+    out = set(base)
+    changed = True
+    while changed:
+        changed = False
+        for n in ast.walk(fn):
+            if isinstance(n, ast.Assign) and isinstance(n.value, ast.Name) and n.value.id in out:
+                for t in n.targets:
+                    if isinstance(t, ast.Name) and t.id not in out:
+                        out.add(t.id)
+                        changed = True
+    return out
+
+
+def _out_names(fn: ast.FunctionDef) -> Set[str]:
+    """The output stream: second parameter of convert() and its aliases."""
+    ps = [a.arg for a in fn.args.args]
+    return _aliases(fn, {ps[1]}) if len(ps) > 1 else set()
+
+
+def _is_out_write(c: ast.AST, outs: Set[str]) -> bool:
+    return isinstance(c, ast.Call) and call_name(c) == "write" and isinstance(c.func, ast.Attribute) and isinstance(c.func.value, ast.Name) and c.func.value.id in outs
+
+
+def _palette_name(fn: ast.FunctionDef) -> Optional[str]:
+    """The palette: the list that a nested closure indexes with its own parameter."""
+    for n in ast.walk(fn):
+        if isinstance(n, ast.FunctionDef) and n is not fn and n.args.args:
+            par = n.args.args[0].arg
+            for s_ in ast.walk(n):
+                if isinstance(s_, ast.Subscript) and isinstance(s_.value, ast.Name) and isinstance(s_.slice, ast.Name) and s_.slice.id == par and any(call_name(c) == "pack" for c in ast.walk(n) if isinstance(c, ast.Call)):
+                    return s_.value.id
+    return None
+
+
 def _palette_closures(fn: ast.FunctionDef) -> List[ast.FunctionDef]:
     out = []
     for n in ast.walk(fn):
         if isinstance(n, ast.FunctionDef) and n is not fn:
-            has_pal = any(isinstance(s, ast.Subscript) and isinstance(s.value, ast.Name) and s.value.id == "palette" for s in ast.walk(n))
+            pn = _palette_name(fn)
+            has_pal = pn is not None and any(isinstance(s, ast.Subscript) and isinstance(s.value, ast.Name) and s.value.id == pn for s in ast.walk(n))
             has_pack = any(isinstance(c, ast.Call) and call_name(c) == "pack" for c in ast.walk(n))
             if has_pal and has_pack:
                 out.append(n)
@@ -60,12 +102,12 @@ def d1(ctx: Ctx):
             # c = palette[x]
             var = None
             for st in c.body:
-                if isinstance(st, ast.Assign) and isinstance(st.value, ast.Subscript) and isinstance(st.value.value, ast.Name) and st.value.value.id == "palette":
+                if isinstance(st, ast.Assign) and isinstance(st.value, ast.Subscript) and isinstance(st.value.value, ast.Name) and st.value.value.id == _palette_name(fn):
                     idx = st.value.slice
                     okidx = isinstance(idx, ast.Name) and idx.id == param
                     var = st.targets[0].id if isinstance(st.targets[0], ast.Name) else None
-                    ctx.ob(f"{dec}.{c.name}:palette[{param}]", okidx, "" if okidx else f"palette is indexed with `{unparse(idx)}`, not with the pixel value", file=DECODERS[dec], line=st.lineno)
-            ctx.need(var is not None, f"{dec}.{c.name}", "`c = palette[x]` not found")
+                    ctx.ob(f"{dec}.{_closure_key(fn, c)}:palette[x]", okidx, "" if okidx else f"palette is indexed with `{unparse(idx)}`, not with the pixel value", file=DECODERS[dec], line=st.lineno)
+            ctx.need(var is not None, f"{dec}.{_closure_key(fn, c)}", "`c = palette[x]` not found")
             packs = [n for n in ast.walk(c) if isinstance(n, ast.Call) and call_name(n) == "pack" and n.args and isinstance(n.args[0], ast.List)]
             ctx.need(len(packs) == 1 and len(packs[0].args[0].elts) == 3, f"{dec}.{c.name}", "pack([r, g, b]) not found")
             for ch, (e, r) in enumerate(zip(packs[0].args[0].elts, ref)):
@@ -75,7 +117,7 @@ def d1(ctx: Ctx):
                     why = "" if ok else f"channel {'RGB'[ch]} is `{unparse(e)}`; the CoCo 3 code is `{REF_RGB[ch]}`"
                 except BitEvalError as ex:
                     raise AnalysisError("D1", f"{dec}.{c.name}", f"cannot evaluate `{unparse(e)}`: {ex}")
-                ctx.ob(f"{dec}.{c.name}:{'RGB'[ch]}", ok, why, file=DECODERS[dec], line=e.lineno)
+                ctx.ob(f"{dec}.{_closure_key(fn, c)}:{'RGB'[ch]}", ok, why, file=DECODERS[dec], line=e.lineno)
     # VEF table
     m = D.mods["veftopng"]
     tbl = None
@@ -141,7 +183,10 @@ def d2(ctx: Ctx):
             for c in ast.iter_child_nodes(n):
                 parents[id(c)] = n
         closures = {f.name for fn in m.functions.values() for f in ast.walk(fn) if isinstance(f, ast.FunctionDef) and f is not fn}
-        tables = {"pal", "palette", "br2", "br3", "semig"}
+        tables = set()
+        for n in ast.walk(m.tree):
+            if isinstance(n, ast.Assign) and isinstance(n.targets[0], ast.Name) and (isinstance(n.value, (ast.List, ast.ListComp)) or (isinstance(n.value, ast.Subscript) and isinstance(n.value.slice, ast.Slice))):
+                tables.add(n.targets[0].id)
         # maximal extraction expressions
         groups: Dict[Tuple[str, str, int], List[Tuple[ast.AST, bool, str]]] = {}
         seen_tops: Set[int] = set()
@@ -179,7 +224,7 @@ def d2(ctx: Ctx):
                 fn = parents.get(id(fn))
             if fn is None or fn.name in ("start", "main") and dec != "veftopng":
                 continue
-            if any(isinstance(s, ast.Subscript) and isinstance(s.value, ast.Name) and s.value.id == "palette" for s in ast.walk(fn)) and fn.name in closures and any(call_name(c) == "pack" for c in ast.walk(fn) if isinstance(c, ast.Call)):
+            if fn.name in closures and fn.args.args and any(isinstance(s, ast.Subscript) and isinstance(s.value, ast.Name) and isinstance(s.slice, ast.Name) and s.slice.id == fn.args.args[0].arg for s in ast.walk(fn)) and any(call_name(c) == "pack" for c in ast.walk(fn) if isinstance(c, ast.Call)):
                 continue  # colour-code closure: rule D1
             br = _branch_id(self_top, parents, fn)
             sink, sink_name = _pixel_sink(self_top, parents, closures, tables)
@@ -187,7 +232,15 @@ def d2(ctx: Ctx):
             groups.setdefault((fkey, var, br), []).append((self_top, sink, sink_name))
         # qualifying variables: at least one field reaches a pixel sink
         qualifying = {(f, v) for (f, v, b), items in groups.items() if any(s for _, s, _ in items)}
-        for (fname, var, br), items in sorted(groups.items(), key=lambda kv: (kv[0][0], kv[0][1], kv[0][2])):
+        order = sorted(groups.items(), key=lambda kv: min((t[0].lineno, t[0].col_offset) for t in kv[1]))
+        ordinal: Dict[Tuple[str, str, int], int] = {}
+        per_fn: Dict[str, int] = {}
+        for (fname, var, br), items in order:
+            if (fname, var) not in qualifying:
+                continue
+            per_fn[fname] = per_fn.get(fname, 0) + 1
+            ordinal[(fname, var, br)] = per_fn[fname]
+        for (fname, var, br), items in order:
             if (fname, var) not in qualifying:
                 continue
             items.sort(key=lambda t: (t[0].lineno, t[0].col_offset))
@@ -223,7 +276,7 @@ def d2(ctx: Ctx):
             if not dup and not missing and not order_ok and same_sink:
                 msg = f"fields of `{var}` are consumed in the order {[sorted(f, reverse=True) for f in fields]}, not most significant first"
             ctx.ob(
-                f"{dec}.{fname}.{var}#{br}",
+                f"{dec}.{fname}:byte#{ordinal[(fname, var, br)]}",
                 ok,
                 (msg + f" (extractions: {[unparse(e) for e, _, _ in items]})") if msg else "",
                 file=rel,
@@ -313,21 +366,20 @@ def d3(ctx: Ctx):
             if isinstance(it, ast.List):
                 sizes[n.targets[0].id] = len(it.elts)
                 triples = all(isinstance(x, ast.List) and len(x.elts) == 3 for x in it.elts)
-                ctx.ob(f"maxtoppm.{n.targets[0].id}:triples", triples, "" if triples else "table entries are not RGB triples", file=DECODERS["maxtoppm"], line=n.lineno)
-    ctx.need({"br2", "br3", "semig"} <= set(sizes), "maxtoppm tables", f"found {sorted(sizes)}")
+                ctx.ob(f"maxtoppm.table{len(sizes)}:triples", triples, "" if triples else "table entries are not RGB triples", file=DECODERS["maxtoppm"], line=n.lineno)
+    ctx.need(len(sizes) >= 3, "maxtoppm tables", f"found {sorted(sizes)}")
     for n in ast.walk(fn):
         if isinstance(n, ast.Subscript) and isinstance(n.value, ast.Name) and n.value.id in sizes:
             for env in _unroll_env(n, parents) or [{}]:
-                full = dict(env)
-                full["v"] = var_bits("v", 8)
                 try:
                     mx = _max_value(n.slice, env)
                 except BitEvalError as ex:
                     raise AnalysisError("D3", f"maxtoppm.{n.value.id}[{unparse(n.slice)}]", str(ex))
                 ok = mx < sizes[n.value.id]
                 if not ok or env == (_unroll_env(n, parents) or [{}])[0]:
+                    idx_n = sum(1 for o_ in ctx.obligations.get("D3", []) if o_.construct.startswith("maxtoppm.index#")) + 1
                     ctx.ob(
-                        f"maxtoppm.{n.value.id}[{unparse(n.slice)}]" + (f"@{env}" if not ok else ""),
+                        f"maxtoppm.index#{idx_n}" + (f"@{env}" if not ok else ""),
                         ok,
                         "" if ok else f"index can reach {mx}, table `{n.value.id}` has {sizes[n.value.id]} entries",
                         file=DECODERS["maxtoppm"],
@@ -336,7 +388,7 @@ def d3(ctx: Ctx):
                     )
     # composite table of MGE: 64 entries, each a 6-bit colour code
     mg = D.fn("mgetoppm", "convert")
-    c2r = next((n for n in ast.walk(mg) if isinstance(n, ast.Assign) and isinstance(n.targets[0], ast.Name) and n.targets[0].id == "c2r" and isinstance(n.value, ast.List)), None)
+    c2r = next((n for n in ast.walk(mg) if isinstance(n, ast.Assign) and isinstance(n.targets[0], ast.Name) and isinstance(n.value, ast.List) and len(n.value.elts) >= 32 and all(isinstance(e, ast.Constant) for e in n.value.elts)), None)
     ctx.need(c2r is not None, "mgetoppm.c2r", "table not found")
     vals = [ast.literal_eval(e) for e in c2r.value.elts]
     ctx.ob("mgetoppm.c2r:len", len(vals) == 64, "" if len(vals) == 64 else f"c2r has {len(vals)} entries for 64 composite codes", file=DECODERS["mgetoppm"], line=c2r.lineno)
@@ -345,7 +397,7 @@ def d3(ctx: Ctx):
     # palettes are read as 16 entries wherever nibbles (0..15) index them
     for dec in ("hrstoppm", "mgetoppm", "cm3toppm", "rattoppm"):
         f = D.fn(dec, "convert")
-        pal = next((n for n in ast.walk(f) if isinstance(n, ast.Assign) and isinstance(n.targets[0], ast.Name) and n.targets[0].id == "palette"), None)
+        pal = next((n for n in ast.walk(f) if isinstance(n, ast.Assign) and isinstance(n.targets[0], ast.Name) and n.targets[0].id == _palette_name(f)), None)
         ctx.need(pal is not None, f"{dec}.palette", "palette read not found")
         src = unparse(pal.value)
         ok = "read(16)" in src or "range(16)" in src
@@ -384,6 +436,7 @@ class _Count:
         self.branch_disagree: List[Tuple[int, List[str]]] = []
         self.buffers: Dict[str, Poly] = {}
         self.tables: Dict[str, int] = {}  # table name -> bytes per entry
+        self.outs: Set[str] = _out_names(fn)
 
     def bytes_of(self, e: ast.AST) -> Optional[Poly]:
         """Length in bytes of the value written."""
@@ -463,7 +516,7 @@ class _Count:
 
     def count_call(self, c: ast.Call, depth: int) -> Poly:
         cn = call_name(c)
-        if cn == "write" and isinstance(c.func, ast.Attribute) and isinstance(c.func.value, ast.Name) and c.func.value.id in ("out", "output_image_stream"):
+        if _is_out_write(c, self.outs):
             b = self.bytes_of(c.args[0]) if c.args else None
             if b is None:
                 return Poly.const(0)
@@ -631,7 +684,7 @@ def d4(ctx: Ctx):
             else:
                 msg = f"header announces {wn} x {hn}, the loops write {written!r}{where}: equal only if {' and '.join(unmet)}, which the option validator (check_positive) does not ensure"
                 fb = []
-            key = dec if not fb else f"{dec}.{fb[0][len('<file byte '):-1]}"
+            key = dec if not fb else f"{dec}.file-field"
             ctx.ob(key, False, msg, file=rel, line=call.lineno, facts=facts, witness=("an option value violating: " + ", ".join(unmet)) if unmet else "", props=["C18"] if unmet else ["C19"])
         if all_ok:
             ctx.ob(dec, True, file=rel, line=call.lineno, facts=last_facts)
@@ -678,39 +731,56 @@ def d4b(ctx: Ctx):
     D = decoderfacts(ctx)
     fn = D.fn("maxtoppm", "convert")
     rel = DECODERS["maxtoppm"]
-    # size = hi * 256 + lo from header bytes 1 and 2
-    sz = next((n for n in ast.walk(fn) if isinstance(n, ast.Assign) and isinstance(n.targets[0], ast.Name) and n.targets[0].id == "size"), None)
-    ctx.need(sz is not None, "maxtoppm.size", "length field assignment not found")
-    env = {}
-    p = poly_eval(sz.value, env)
-    want = Poly.atom("<file byte>") * Poly.const(256) + Poly.atom("<file byte>")
-    src = unparse(sz.value).replace(" ", "")
-    oks = src in ("ord(head[1])*256+ord(head[2])", "ord(head[2])+ord(head[1])*256", "(ord(head[1])<<8)+ord(head[2])", "ord(head[1])<<8|ord(head[2])")
-    ctx.ob("maxtoppm:length-field", oks, "" if oks else f"the data length is read as `{unparse(sz.value)}`, not big-endian from header bytes 1 and 2", file=rel, line=sz.lineno)
-    rw = next((n for n in ast.walk(fn) if isinstance(n, ast.Assign) and isinstance(n.targets[0], ast.Name) and n.targets[0].id == "rows" and "size" in names_loaded(n.value)), None)
-    ctx.need(rw is not None, "maxtoppm.rows", "derivation of rows from the length field not found")
+    # size = hi * 256 + lo from header bytes 1 and 2 (names of locals are free; cols / rows are parameters)
+    from .pyast import ast_match, _pat
+
+    cols_p, rows_p = fn.args.args[4].arg, fn.args.args[5].arg
+    sz = None
+    for n in ast.walk(fn):
+        if isinstance(n, ast.Assign) and isinstance(n.targets[0], ast.Name):
+            for pat in ("ord($h[1]) * 256 + ord($h[2])", "ord($h[2]) + ord($h[1]) * 256", "(ord($h[1]) << 8) + ord($h[2])", "ord($h[1]) << 8 | ord($h[2])"):
+                if ast_match(_pat(pat), n.value, {}):
+                    sz = n
+    lenvar = None
+    cand = [n for n in ast.walk(fn) if isinstance(n, ast.Assign) and isinstance(n.targets[0], ast.Name) and n.targets[0].id == rows_p and isinstance(n.value, ast.BinOp)]
+    rw = next((n for n in cand if any(isinstance(x, ast.Name) and x.id == cols_p for x in ast.walk(n.value))), None)
+    ctx.need(rw is not None, "maxtoppm.rows", "derivation of the height from the length field not found")
+    others = sorted(names_loaded(rw.value) - {cols_p})
+    ctx.need(len(others) == 1, "maxtoppm.rows", f"height is derived from {others}")
+    lenvar = others[0]
+    ldef = next((n for n in ast.walk(fn) if isinstance(n, ast.Assign) and isinstance(n.targets[0], ast.Name) and n.targets[0].id == lenvar), None)
+    ctx.need(ldef is not None, "maxtoppm.length", "definition of the length value not found")
+    oks = sz is not None and sz is ldef
+    ctx.ob("maxtoppm:length-field", oks, "" if oks else f"the data length is read as `{unparse(ldef.value)}`, not big-endian from header bytes 1 and 2", file=rel, line=ldef.lineno)
     v = rw.value
     ok = False
     if isinstance(v, ast.BinOp) and isinstance(v.op, ast.FloorDiv):
         num = poly_eval(v.left, {})
         den = poly_eval(v.right, {})
-        ok = num == Poly.atom("size") * Poly.const(8) and den == Poly.atom("cols")
+        ok = num == Poly.atom(lenvar) * Poly.const(8) and den == Poly.atom(cols_p)
     ctx.ob(
         "maxtoppm:rows=8*size//cols",
         ok,
-        "" if ok else f"rows are derived as `{unparse(v)}`; the file holds `size` bytes of `cols/8` bytes per row, so the height is floor(8*size/cols): heights that are not a multiple of 8 come out wrong (and the consistency test then rejects a good file)",
+        "" if ok else f"rows are derived as `{unparse(v)}`; the file holds `{lenvar}` bytes of `{cols_p}/8` bytes per row, so the height is floor(8*{lenvar}/{cols_p}): heights that are not a multiple of 8 come out wrong (and the consistency test then rejects a good file)",
         file=rel,
         line=rw.lineno,
         witness="" if ok else "a 256x100 MAX file (3200 data bytes)",
     )
-    chk = next((n for n in ast.walk(fn) if isinstance(n, ast.If) and "size" in names_loaded(n.test) and "rows" in names_loaded(n.test)), None)
-    okc = chk is not None and unparse(chk.test).replace(" ", "") in ("cols*rows//8!=size", "rows*cols//8!=size", "size!=cols*rows//8")
+    chk = next((n for n in ast.walk(fn) if isinstance(n, ast.If) and lenvar in names_loaded(n.test) and rows_p in names_loaded(n.test)), None)
+    okc = False
+    if chk is not None and isinstance(chk.test, ast.Compare) and isinstance(chk.test.ops[0], ast.NotEq):
+        a, b = chk.test.left, chk.test.comparators[0]
+        for x, y in ((a, b), (b, a)):
+            if isinstance(y, ast.Name) and y.id == lenvar and isinstance(x, ast.BinOp) and isinstance(x.op, ast.FloorDiv):
+                okc = poly_eval(x.left, {}) == Poly.atom(cols_p) * Poly.atom(rows_p) and poly_eval(x.right, {}).is_const() == 8
     ctx.ob("maxtoppm:length-consistency", okc, "" if okc else "the test that the derived height reproduces the length field is gone or changed", file=rel, line=chk.lineno if chk else fn.lineno)
     # newsroom header: cols = byte0 * 8, rows = byte1
-    nr = [n for n in ast.walk(fn) if isinstance(n, ast.If) and unparse(n.test) == "newsroom"]
+    news_p = fn.args.args[3].arg
+    nr = [n for n in ast.walk(fn) if isinstance(n, ast.If) and unparse(n.test) == news_p]
     ctx.need(nr, "maxtoppm.newsroom", "newsroom branch not found")
-    srcn = unparse(nr[0]).replace(" ", "")
-    okn = "cols=ord(head[0])*8" in srcn and "rows=ord(head[1])" in srcn
+    from .pyast import ast_contains as _ac
+
+    okn = any(ast_match(_pat(f"{cols_p} = ord($h[0]) * 8"), st, {}) for st in nr[0].body) and any(ast_match(_pat(f"{rows_p} = ord($h[1])"), st, {}) for st in nr[0].body)
     ctx.ob("maxtoppm:newsroom-header", okn, "" if okn else "Newsroom header is no longer read as width/8 and height bytes", file=rel, line=nr[0].lineno)
 
 
@@ -938,7 +1008,7 @@ def d7(ctx: Ctx):
             if isinstance(st, ast.FunctionDef):
                 continue
             for c in ast.walk(st):
-                if isinstance(c, ast.Call) and call_name(c) == "write" and isinstance(c.func, ast.Attribute) and isinstance(c.func.value, ast.Name) and c.func.value.id in ("out", "output_image_stream"):
+                if _is_out_write(c, _out_names(fn)):
                     first_write = first_write or c.lineno
         ctx.need(first_write is not None, dec, "no output write found")
         refusals = []
@@ -957,11 +1027,16 @@ def d7(ctx: Ctx):
             ctx.ob(f"{dec}:{kind}@{refusals.index((ln, kind)) + 1}", ok, "" if ok else f"`{kind}` at line {ln} comes after the first output write (line {first_write}): a rejected file leaves a partial image behind", file=rel, line=ln)
         if not refusals:
             ctx.info(f"{dec}:no-format-check", "decoder has no format field to validate", file=rel, line=fn.lineno)
-    # expected gates by name: the checks that exist today must keep existing
-    for dec, needle in (("mgetoppm", "a != 0"), ("rattoppm", "packed == 0"), ("maxtoppm", "ord(head[0]) != 0")):
+    # the format gates that exist today must keep existing: an `if` on a value read from the header whose body refuses
+    for dec, want in (("mgetoppm", 1), ("rattoppm", 1), ("maxtoppm", 2)):
         fn = D.fn(dec, "convert")
-        has = any(isinstance(n, ast.If) and unparse(n.test).replace("(", "").replace(")", "") == needle.replace("(", "").replace(")", "") for n in ast.walk(fn))
-        ctx.ob(f"{dec}:format-check", has, "" if has else f"the format check `{needle}` is gone: files of another format are decoded to garbage", file=DECODERS[dec], line=fn.lineno)
+        gates = 0
+        for n in ast.walk(fn):
+            if isinstance(n, ast.If) and isinstance(n.test, ast.Compare):
+                refuses = any(isinstance(x, ast.Raise) or (isinstance(x, ast.Call) and call_name(x) == "exit") or (isinstance(x, ast.Return) and isinstance(x.value, ast.Constant) and x.value.value is False) for b in n.body for x in ast.walk(b))
+                if refuses:
+                    gates += 1
+        ctx.ob(f"{dec}:format-check", gates >= want, "" if gates >= want else f"{dec} has {gates} header checks that refuse the file, {want} expected: files of another format are decoded to garbage", file=DECODERS[dec], line=fn.lineno)
     # veftopng: type check before anything is written
     st = D.fn("veftopng", "start")
     exits = [n.lineno for n in ast.walk(st) if isinstance(n, ast.Call) and call_name(n) == "exit"]
